@@ -7,7 +7,7 @@ RULE = ("controlled schedules (real threads, one runnable at a time; scheduling 
         "destructor's lifetime wait) of pools with 1-3 workers and 1-3 client threads issuing 1-6 submissions of the six kinds (co_await pool, "
         "co_await pool(awaitable), run(fn), run_detached, resume(suspend_point), run(async)) whose job bodies are lists of up to 4 pool "
         "operations (submit again / run_detached from a worker, stop() on the own pool, current::is_stopped(), current::any_enqueued(), "
-        "co_await thread_pool::current()), explicit stop() from clients, client threads calling worker(), destructor at the end (racing "
+        "co_await thread_pool::current(), waiting for the outcome of another submission), clients waiting for a submission, explicit stop() from clients, client threads calling worker(), destructor at the end (racing "
         "with job-issued stops); random, bursty, workers-first and clients-first schedules; every schedule prefix of length 5 over 3 choices "
         "for the two destructor-vs-job-stop configurations; thorough adds every prefix of length 8 for 9 small configurations; non-trivial = "
         "at least 3 thread switches in the executed trace and (a stop()/self-stop races with a submission or >= 2 submissions); distinct = "
@@ -21,6 +21,9 @@ ASSUMPTIONS = [
     "a job that called stop() on its own pool does not touch the pool afterwards (its worker is detached); bodies end with stop()",
     "a client thread that calls worker() relies on somebody else stopping the pool; if nobody does, the client program deadlocks itself "
     "(`user_stuck` in PoolLive.v) - the generator always adds such a stop",
+    "a job / client that waits for the outcome of a submission makes the program depend on it: programs with waits have >= 2 workers, one "
+    "waiting job, no stop() before the destructor, and client 0 waits for the awaited submission before destroying the pool (otherwise "
+    "the program deadlocks itself: `waits_for_submission` in PoolLive.v)",
     "interleaving at the granularity of critical sections of the pool mutex; sequentially consistent (the unlocked read of _exit in "
     "current::await_ready is a data race in the C++ sense; it is modelled as one atomic step); std::condition_variable modelled: notify_all "
     "flags the threads sleeping at that moment, notify_one adds an anonymous token (any sleeper may take it: covers every choice and "
@@ -34,13 +37,15 @@ KINDS = [0, 1, 2, 3, 4, 5]
 
 
 def mk(name, n, prog, sched):
-    """prog: list of ('s', client, kind, [actions]) | ('x', client) stop | ('w', client) worker()"""
+    """prog: list of ('s', client, kind, [actions]) | ('x', client) stop | ('w', client) worker() | ('j', client, label) wait"""
     ops = [[1, n]]
     for p in prog:
         if p[0] == 's':
             ops.append([2, p[1], p[2]] + list(p[3]))
         elif p[0] == 'x':
             ops.append([3, p[1]])
+        elif p[0] == 'j':
+            ops.append([5, p[1], p[2]])
         else:
             ops.append([4, p[1]])
     ops.append([9] + list(sched))
@@ -82,6 +87,26 @@ def rand_body(rng):
             acts.append(6)
             break
     return acts
+
+
+def gen_wait_prog(rng):
+    """client 0 submits a job that waits for a later submission t and then waits for t itself before destroying the pool;
+    no stop() anywhere (a stop joins the waiting job's worker before it cancels t: the program would deadlock itself)"""
+    m = rng.choice([1, 2, 2])
+    ns = rng.choice([2, 3, 4])
+    t = rng.randrange(1, ns)
+    a = rng.randrange(0, t)
+    prog = []
+    for i in range(ns):
+        body = [x for x in rand_body(rng) if x not in (6,)][:3]
+        if i == a:
+            body = [10 + t] + body
+        cl = 0 if i in (a, t) else rng.randrange(m)
+        prog.append(('s', cl, rng.choice(KINDS), body))
+    prog.append(('j', 0, t))
+    if rng.random() < 0.5:
+        prog.append(('j', 0, rng.randrange(ns)))
+    return m, prog
 
 
 def gen_prog(rng):
@@ -131,17 +156,27 @@ def gen(seed, tier):
     # destructor against a stop() issued by a job: the destructor must wait for that stop
     for pre in itertools.product(range(3), repeat=5):
         cases.append(mk("d%d" % b, 2, [('s', 0, 3, [6]), ('s', 0, 3, [])], list(pre) + [0] * 4)); b += 1
+    # a job that waits for the outcome of a later submission: needs a second worker to be woken for it (or a stop to cancel it)
+    for pre in itertools.product(range(3), repeat=5):
+        cases.append(mk("w%d" % b, 2, [('s', 0, 3, [11]), ('s', 0, 2, []), ('j', 0, 1)], list(pre) + [0, 1, 2] * 3)); b += 1
+    for k in KINDS:
+        cases.append(mk("w%d" % b, 3, [('s', 0, k, [11, 7]), ('s', 0, k, []), ('s', 1, 3, []), ('j', 0, 1)], [0, 0, 1, 3, 2, 1, 0, 2])); b += 1
+        cases.append(mk("w%d" % b, 2, [('s', 0, k, [11]), ('s', 0, k, []), ('j', 0, 1), ('j', 0, 0)], [0, 0, 1, 2, 1, 0, 2, 2])); b += 1
     # a client thread that worked in the pool (worker()) destroys it while a job-issued stop() is still joining
     for pre in itertools.product(range(3), repeat=5):
         cases.append(mk("e%d" % b, 2, [('s', 0, 3, [6]), ('s', 0, 3, []), ('w', 0)], list(pre) + [1, 2, 0, 1, 2, 0])); b += 1
     for i in range(n_cases):
         n = rng.choice([1, 1, 2, 2, 3])
-        m, prog = gen_prog(rng)
+        if i % 6 == 5:
+            n = rng.choice([2, 2, 3])
+            m, prog = gen_wait_prog(rng)
+        else:
+            m, prog = gen_prog(rng)
         L = rng.choice([0, 6, 12, 20, 30, 45])
         cases.append(mk("g%d" % i, n, prog, rand_sched(rng, L, m + n)))
     # malformed stream: bad kinds / clients / sizes are ignored identically on both sides
     for i in range(12):
-        ops = [[1, rng.choice([0, 1, 2, 7])], [2, rng.choice([0, 5]), rng.choice([0, 9]), rng.choice([0, 3]), rng.choice([0, 12])],
+        ops = [[1, rng.choice([0, 1, 2, 7])], [2, rng.choice([0, 5]), rng.choice([0, 9]), rng.choice([0, 3]), rng.choice([0, 60])],
                [2, 0, 2, 6, 0], [2, 0], [3, rng.choice([1, 4])], [2, 1, rng.choice(KINDS), 1, 3, 9, 9, 9, 9, 9], [7, 1], [4, 3],
                [9] + [rng.randint(0, 4) for _ in range(10)]]
         cases.append(Case("pool", "m%d" % i, ops))
@@ -165,17 +200,37 @@ def gen(seed, tier):
 
 
 def close_case(c):
-    """a client thread that calls worker() needs somebody else to stop the pool (otherwise the client program deadlocks itself,
-    which is not the pool's fault): keep shrunk cases inside the class of programs the property speaks about"""
+    """keep shrunk cases inside the class of programs the property speaks about (programs that do not deadlock themselves):
+    * a client thread that calls worker() needs somebody else to stop the pool;
+    * a wait needs an existing submission; a job that waits for a submission needs a second worker, and client 0 has to
+      wait for that submission too before it destroys the pool (a stop() joins the waiting job's worker before it cancels
+      the queued tasks)."""
     ops = [list(o) for o in c.ops]
+    sched = [o for o in ops if o and o[0] == 9]
+    ops = [o for o in ops if not (o and o[0] == 9)]
+    nsub = 0
+    for o in ops:   # count accepted submissions the way the decoder does (roughly: well-formed ones)
+        if len(o) >= 3 and o[0] == 2 and 0 <= o[1] <= 2 and 0 <= o[2] <= 5 and len(o) <= 9:
+            nsub += 1
+    # drop waits for submissions that do not exist
+    ops = [o for o in ops if not (len(o) == 3 and o[0] == 5 and not (0 <= o[2] < nsub))]
+    for o in ops:
+        if len(o) >= 3 and o[0] == 2:
+            o[3:] = [x for x in o[3:] if not (10 <= x < 50 and x - 10 >= nsub)]
+    targets = sorted({x - 10 for o in ops if len(o) >= 3 and o[0] == 2 for x in o[3:] if 10 <= x < 50})
+    if targets:
+        ops = [o for o in ops if not (len(o) == 2 and o[0] == 1)]
+        ops.insert(0, [1, 2])
+        for t in targets:
+            if not any(len(o) == 3 and o[0] == 5 and o[1] == 0 and o[2] == t for o in ops):
+                ops.append([5, 0, t])
     workers = [o[1] for o in ops if len(o) == 2 and o[0] == 4 and 0 <= o[1] <= 2]
     if workers:
         last_w = max(i for i, o in enumerate(ops) if len(o) == 2 and o[0] == 4)
         cl = ops[last_w][1]
         if not any(len(o) == 2 and o[0] == 3 and o[1] != cl and 0 <= o[1] <= 2 for o in ops[last_w:]):
-            sched = [o for o in ops if o and o[0] == 9]
-            ops = [o for o in ops if not (o and o[0] == 9)] + [[3, 1 if cl == 0 else 0]] + sched
-    return Case(c.engine, c.name, ops, c.meta)
+            ops.append([3, 1 if cl == 0 else 0])
+    return Case(c.engine, c.name, ops + sched, c.meta)
 
 
 def canon(obs):
